@@ -17,7 +17,7 @@ from ..cfg import explore, must_facts, canon_fact, holds
 from ..rules import call_sites, node_calls, require_before, check_take_and_clear, settle_sites, event_facts
 from ..mutate import mutate, remove_stmts, replace_stmt, replace_expr, parse_stmt, parse_expr
 from ..model import AnalysisError
-from ..x_scope import own_nodes
+from ..x_scope import own_nodes, strip_annotations
 from ..x_flow import protected, resolve_local, concrete_paths
 
 TECHNIQUE = "dominance on the CFG + path-sensitive typestate with abstract evaluation of the wait-status macros + take-and-clear / settle-discipline lint"
@@ -442,7 +442,11 @@ def rule_wait_for_exit(ck):
         is_exc = "exception" in nm or "exc_info" in nm
         (exc_ids if is_exc else res_ids)[node.id] = c
         payload = c.args[1] if kind == "safe" and len(c.args) > 1 else (c.args[0] if kind == "raw" and c.args else None)
+        if payload is not None:
+            payload = resolve_local(cb, payload)
         if is_exc:
+            if isinstance(payload, ast.Name):
+                raise AnalysisError("wait_for_exit callback: the exception object %s is not traceable to its construction" % payload.id)
             ok = isinstance(payload, ast.Call) and q.call_attr(payload) == "CalledProcessError" and payload.args and q.dotted(payload.args[0]) == ret
             ck.ob("C42.wait-for-exit", cb, c, ok, "the error outcome is CalledProcessError carrying the return code")
         else:
@@ -471,6 +475,7 @@ def rule_wait_for_exit(ck):
 
 
 def run(ck):
+    ck.repo = strip_annotations(ck.repo, F)
     ck.rule("C42.register-before-poll", "set_exit_callback stores the callback, installs the SIGCHLD handler and registers the subprocess before polling it immediately")
     ck.rule("C42.sigchld", "initialize routes signal.SIGCHLD to _cleanup")
     ck.rule("C42.cleanup-all", "_cleanup polls every registered pid over a copy of the table")
